@@ -221,6 +221,11 @@ def run_isolated(chk, sc):
 def _try(chk, sc, want_sig, known_status, findings, budget):
     if budget["left"] <= 0 or time.time() > budget["deadline"]:
         return None
+    try:
+        if not chk.legal(sc):
+            return None
+    except Exception:
+        return None
     budget["left"] -= 1
     try:
         res = run_isolated(chk, sc)
